@@ -20,10 +20,39 @@ for f in sorted(glob.glob(os.path.join(ROOT, "props", "C*.json"))):
 out = ["| id | theorems (obligations) | families | partial / named gaps | open findings | fixed findings | seeded change → check result |", "|---|---|---|---|---|---|---|"]
 for r in rows: out.append("| " + " | ".join(str(x).replace("|", "\\|").replace("\n", " ") for x in r) + " |")
 txt = "\n".join(out) + "\n"
+# ---- fix commits
+import subprocess
+log = subprocess.run(["git", "-C", "/repo", "log", "--reverse", "--format=%h\t%s", "--grep=^fix:", "--grep=^Revert"], capture_output=True, text=True).stdout.strip().splitlines()
+byc = {}
+for k in kf:
+    if k.get("status") == "fixed" and k.get("commit"): byc.setdefault(k["commit"][:7], set()).add(f"{k['id']}/{k['property']}")
+fx = ["| commit | finding / property | subject |", "|---|---|---|"]
+for l in log:
+    h, subj = l.split("\t", 1)
+    fx.append(f"| {h} | {', '.join(sorted(byc.get(h[:7], []))) or '—'} | {subj} |")
+fixtxt = "\n".join(fx) + "\n"
+# ---- seeds
+sd = ["| property | what the independently produced change does | needs | demo confirmed by coordinator | result of the property's check with the change applied |", "|---|---|---|---|---|"]
+for d in sorted(glob.glob(os.path.join(ROOT, "seeded", "C*"))):
+    pid = os.path.basename(d)
+    try: m = json.load(open(os.path.join(d, "meta.json")))
+    except Exception: continue
+    conf = "not run"
+    cp = os.path.join(d, "confirm.json")
+    if os.path.exists(cp):
+        c = json.load(open(cp)); conf = ("yes" if c.get("confirmed") else "NO") + f" (demo exit {c.get('demo_exit_without_change')} → {c.get('demo_exit_with_change')})"
+    res = "not evaluated"
+    rp = os.path.join(d, "result.json")
+    if os.path.exists(rp):
+        r = json.load(open(rp)); res = "; ".join(f"{k}: exit {v.get('exit')}" + (" no-failing-input-found" if "no-failing-input-found" in v.get("line", "") else (" with failing input" if v.get("exit") == 1 else " **MISSED**")) for k, v in r.items())
+    clip = lambda x, n: (str(x)[:n] + "…") if len(str(x)) > n else str(x)
+    sd.append("| " + " | ".join(z.replace("|", "\\|").replace("\n", " ") for z in [pid, clip(m.get("summary", ""), 260), clip(m.get("needs", ""), 200), conf, res]) + " |")
+seedtxt = "\n".join(sd) + "\n"
 p = os.path.join(ROOT, "DESIGN.md"); s = open(p).read()
 begin, end = "<!-- BEGIN GENERATED TABLE -->", "<!-- END GENERATED TABLE -->"
-if begin in s:
-    s = s[:s.index(begin) + len(begin)] + "\n" + txt + s[s.index(end):]
-    open(p, "w").write(s); print("DESIGN.md table updated:", len(rows), "rows")
-else:
-    print(txt)
+def put(s, tag, body):
+    b, e = f"<!-- BEGIN GENERATED {tag} -->", f"<!-- END GENERATED {tag} -->"
+    if b in s: return s[:s.index(b) + len(b)] + "\n" + body + s[s.index(e):]
+    return s
+s = put(s, "TABLE", txt); s = put(s, "FIXES", fixtxt); s = put(s, "SEEDS", seedtxt)
+open(p, "w").write(s); print("DESIGN.md generated parts updated:", len(rows), "props,", len(fx) - 2, "fix commits,", len(sd) - 2, "seeds")
